@@ -50,7 +50,7 @@ def _component(f, x, i, h, f0mag, min_side=None):
     return R, err
 
 
-def richardson_gradient(f, x, h0=1e-3, max_shrink=18, good_rel=1e-7):
+def richardson_gradient(f, x, h0=1e-3, max_shrink=18, good_rel=1e-7, only=None):
     """Gradient of scalar f at x (1-D float array) with per-component error estimates.
 
     Returns (grad, err, steps).  Steps start at h0*max(1,|x_i|) (and, for problems living on a tiny scale,
@@ -65,7 +65,7 @@ def richardson_gradient(f, x, h0=1e-3, max_shrink=18, good_rel=1e-7):
     if not np.isfinite(f0):
         return g, e, hs
     xmax = float(np.max(np.abs(x))) if n else 0.0
-    for i in range(n):
+    for i in (range(n) if only is None else only):       # `only`: judge a subset of the components (others stay NaN/inf)
         starts = [h0 * max(1.0, abs(x[i]))]
         if 0.0 < xmax < 1e-2:
             starts.append(h0 * xmax)
